@@ -104,6 +104,29 @@ Theorem C20_rend_partition : forall sign p memo grams,
 Proof. exact rend_partition. Qed.
 Print Assumptions C20_rend_partition.
 
+(* ---- the gram size invariant of the configuration setters ---- *)
+(* For EVERY construction (code, curt, requested size) and EVERY later sequence
+   of .code / .curt / .size setter calls (each re-clamps .size for the
+   configuration it has just established), the size in force exceeds both the
+   zeroth overhead (reduced by 3/4 when curt) and the non-zeroth overhead of the
+   CURRENT (curt, code), so rend's zeroth and non-zeroth body sizes are >= 1. *)
+Theorem C20_size_invariant : forall c curt n h mid vid,
+  let f := cfg_run c curt n h in
+  let p := {| r_code := f_code f; r_curt := f_curt f; r_size := f_size f; r_mid := mid; r_vid := vid |} in
+  (S (zoz p) <= r_size p)%nat /\ (S (noz p) <= r_size p)%nat /\ (1 <= zbz p)%nat /\ (1 <= nbz p)%nat.
+Proof.
+  intros c curt n h mid vid f p. destruct (cfg_run_good c curt n h) as [A B].
+  destruct (cfg_bodies_positive c curt n h mid vid) as [C D]. repeat split; assumption.
+Qed.
+Print Assumptions C20_size_invariant.
+
+Example C20_size_example :
+  (* base2 signed at its minimum 124, then back to Base64 heads: re-clamped to 165 *)
+  f_size (cfg_run AZ true 6 [SetCurt false]) = 165%nat /\
+  f_size (cfg_run AZ true 6 []) = 124%nat /\
+  f_size (cfg_run GZ true 6 [SetCode SAZ; SetSize 1; SetCurt false; SetCode GZ]) = 165%nat.
+Proof. vm_compute. repeat split. Qed.
+
 (* ---- codec round trip ---- *)
 Theorem C20_codec_b64 : forall verify sign authic vids c n mid vid body,
   (auth c = true -> codec_premises verify sign vid) ->
